@@ -22,7 +22,7 @@ def scenarios(ctx, families):
         for line in s['outH']:
             exp.setdefault(line[0], []).append(line[1])
         out.append({'id': len(out), 'req': s['req'],
-                    'expect': {'rejected': s['rejected'], 'local': s['local'], 'forwarded': s['forwarded'], 'outHost': s['outHost'], 'out': exp}})
+                    'expect': {'outT': s.get('outT') or [], 'rejected': s['rejected'], 'local': s['local'], 'forwarded': s['forwarded'], 'outHost': s['outHost'], 'out': exp}})
     if not out:
         raise vf.Inconclusive('no scenarios for %s' % families)
     return out
@@ -51,7 +51,7 @@ def subst(v, o):
 
 def brief(req):
     return {k: req[k] for k in ('fam', 'proto', 'kind', 'probe', 'preserveHost', 'host', 'custom', 'ua', 'probeText', 'method', 'path', 'scheme', 'prefix') if k in req} | \
-        {'lines': ['%s(%s): %s' % (l['k'], l['sp'], l['v']) for l in req['lines']], 'lines_before_user_agent': ['%s(%s): %s' % (l['k'], l['sp'], l['v']) for l in req.get('pre') or []]}
+        {'trailer_section': ['%s(%s): %s' % (l['k'], l['sp'], l['v']) for l in req.get('trailers') or []], 'lines': ['%s(%s): %s' % (l['k'], l['sp'], l['v']) for l in req['lines']], 'lines_before_user_agent': ['%s(%s): %s' % (l['k'], l['sp'], l['v']) for l in req.get('pre') or []]}
 
 
 def judge(ctx, scs, obs, keys_of_interest, classify):
@@ -63,7 +63,7 @@ def judge(ctx, scs, obs, keys_of_interest, classify):
         o = obs[sc['id']]
         e = sc['expect']
         req = sc['req']
-        rep = {'scenario': brief(req), 'expected': e, 'observed': {k: o.get(k) for k in ('status', 'body', 'forwarded', 'host', 'headers', 'err', 'wire')}}
+        rep = {'scenario': brief(req), 'expected': e, 'observed': {k: o.get(k) for k in ('status', 'body', 'forwarded', 'host', 'headers', 'trailers', 'err', 'wire')}}
         if o.get('err'):
             errs += 1
             if errs > max(3, len(scs) // 50):
@@ -112,8 +112,20 @@ def judge(ctx, scs, obs, keys_of_interest, classify):
             got = o['headers'].get(k, [])
             if k == 'Accept-Encoding' and not want:
                 continue    # dont-care: Go's transport asks for gzip (and undoes it) when the client sent no Accept-Encoding
+            if got != want and k == 'X-Http2-Fingerprint' and req.get('trailers') and len(want) == 1 and len(got) == 1 and got[0] == want[0].rsplit('|', 1)[0] + '|':
+                continue    # the trailer block's HEADERS frame was captured before the handler marshalled: the other instant C03 admits (H2Fingerprint.tla, fpAlt) - still the proxy's value
             if got != want:
                 viol('header_mismatch', 'backend saw %s = %r, specification says %r' % (k, got, want), k)
+        if req.get('trailers') and any(k in FP_KEYS for k in keys_of_interest):
+            # C05: nothing under a configured fingerprint name in the trailer section the backend received (request trailers as such are
+            # not promised by C08: whether the other names arrive is recorded, not judged)
+            tnames = set()
+            for line in e['outT']:
+                tnames.add(line[0])
+            for k in FP_KEYS:
+                got_t = (o.get('trailers') or {}).get(k, [])
+                if got_t and k not in tnames:
+                    viol('header_mismatch', 'backend found %s = %r in the TRAILER section of the request; the client sent it there' % (k, got_t), k)
         if len(samples) < 6 and (sc['id'] % 37 == 0):
             samples.append({'scenario': brief(req), 'spec_backend_view': {k: [subst(v, o) for v in e['out'].get(k, [])] for k in keys_of_interest if k not in ('host', 'target')},
                             'observed': {k: o['headers'].get(k, []) for k in keys_of_interest if k not in ('host', 'target')}, 'request_line': [o.get('method'), o.get('uri')], 'status': o['status']})
